@@ -567,6 +567,41 @@ def api_stage(ctx):
     ctx.count("api-audit", len(rows), len(rows))
 
 
+def big_stage(ctx, exe, drv):
+    """Large arrays (any pivot / small-sort threshold above the exhaustive range): generated, sorted and judged inside
+    the harness (result == independently sorted key sequence, adjacent items in order by the container's own operators,
+    borders of a sub-segment untouched, every HArray key still found).  Patterns that do not recurse once per element."""
+    rng = ctx.rng
+    sizes = [1023, 1024, 1025, 1500, 2049, 2500, 4097, 5000, 10000]
+    lines = []
+    for n in sizes:
+        for kind in "udsvhg":
+            for pat in "rfbm":
+                for asc in "10":
+                    lines.append("ordbig %s %s %d %s %d" % (kind, pat, n, asc, rng.randrange(1, 2 ** 31)))
+    if ctx.thorough:
+        for n in (1026, 2047, 2048, 3000, 8191, 8193, 20000, 50000, 100000):
+            for kind in "udsvhg":
+                for pat in ("rb" if n > 10000 else "rfbm"):
+                    for asc in "10":
+                        lines.append("ordbig %s %s %d %s %d" % (kind, pat, n, asc, rng.randrange(1, 2 ** 31)))
+    out, faults = core.run_lines_parallel(exe, lines, jobs=12)
+    for i, kind, err in faults:
+        ctx.fail("fault:" + kind, "sanitizer fault on " + lines[i], {"line": lines[i], "stderr": err})
+    for l, o in zip(lines, out):
+        if o != "ok" and not o.startswith("FAULT"):
+            ctx.fail("sort:big:" + o.split(":")[0], "large Sort is not the ordered permutation of its input (%s): %s" % (o, l), {"line": l, "impl_output": o})
+    ctx.count("large-sort-in-harness", len(lines), len(lines), sample={"stream": "large-sort-in-harness", "input": lines[0], "impl": out[0]})
+    # the sizes the proved model can still run: model correspondence + table oracle just above / below 1024
+    ml = []
+    for n in (1023, 1024, 1025):
+        perm = rng.sample(range(n), n)
+        for asc in "10":
+            ml.append("ordsortn %s n %s" % (asc, ",".join("n%d" % r for r in perm)))
+    impl, model = run_both(ctx, exe, drv, "sort-around-1024(model)", ml)
+    sort_oracles(ctx, drv, "sort-around-1024-oracle", ml, impl)
+
+
 def depth_stage(ctx, exe):
     """Observation on the real code only: recursion depth n of Memory::Sort on sorted input (not modelled)."""
     n = 4000 if not ctx.thorough else 30000
@@ -619,6 +654,7 @@ def run(ctx):
     sorts_stage(ctx, exe, drv)
     forms_stage(ctx, exe, drv)
     patterns_stage(ctx, exe, drv)
+    big_stage(ctx, exe, drv)
     depth_stage(ctx, exe)
     api_stage(ctx)
     ctx.assumptions += [
